@@ -302,9 +302,71 @@ func main() {
 		"scenarios: real record and play sessions on the server and real play clients (any-port off/on), each datagram (legit or intruder: other IP same port, same IP other port, " +
 		"other IP other port, the peer's RTCP socket on the RTP port and vice versa) judged through the statistics after a sentinel; timing: ignored floods must not postpone expiry; " +
 		"distinct = distinct (kind, source, verdict) tuples")
+	if lines := ctx.ReplayLines(); lines != nil {
+		replay(ctx, lines)
+		return
+	}
 	startTiming(ctx)
 	unitCases(ctx)
 	serverScenarios(ctx)
 	clientScenarios(ctx)
 	finishTiming(ctx)
+}
+
+// replay: unit lines (kind 4 / 5) are re-evaluated exactly; a scenario line (kind 1 / 2) cannot be
+// replayed datagram by datagram without its sockets, so the corresponding scenarios are run again.
+func replay(ctx *hx.Ctx, lines []string) {
+	scen := false
+	for _, l := range lines {
+		v := hx.ParseLine(l)
+		if len(v) == 0 {
+			continue
+		}
+		getIP := func(v []uint64) ([]byte, []uint64, bool) {
+			if len(v) == 0 || int(v[0]) > len(v)-1 {
+				return nil, nil, false
+			}
+			n := int(v[0])
+			ip := make([]byte, n)
+			for i := range ip {
+				ip[i] = byte(v[1+i])
+			}
+			return ip, v[1+n:], true
+		}
+		switch v[0] {
+		case 4:
+			a, r, ok := getIP(v[1:])
+			if !ok || len(r) < 1 {
+				continue
+			}
+			p1 := int(r[0])
+			b, r2, ok := getIP(r[1:])
+			if !ok || len(r2) != 1 {
+				continue
+			}
+			var o hx.L
+			o.B(gortsplib.VerifSMUDPKeyEqual(a, p1, b, int(r2[0])))
+			ctx.Corr(l, o.String())
+			ctx.Eval()
+		case 5:
+			a, r, ok := getIP(v[1:])
+			if !ok {
+				continue
+			}
+			b, r2, ok := getIP(r)
+			if !ok || len(r2) != 0 {
+				continue
+			}
+			var o hx.L
+			o.B(net.IP(a).Equal(net.IP(b)))
+			ctx.Corr(l, o.String())
+			ctx.Eval()
+		default:
+			scen = true
+		}
+	}
+	if scen {
+		serverScenarios(ctx)
+		clientScenarios(ctx)
+	}
 }
